@@ -152,11 +152,12 @@ pub fn scoped_write<'a, L: RawLock + Lockable + ?Sized, R>(
 			|| collection.raw_unlock_write(),
 		);
 
-		// this ensures the key is held long enough
-		drop(key);
-
 		// safety: we've locked already, and aren't using the data again
 		collection.raw_unlock_write();
+
+		// the key is given up only after the lock has been released, so that it
+		// cannot be obtained again while this thread still holds the lock
+		drop(key);
 
 		r
 	}
@@ -179,11 +180,12 @@ pub fn scoped_try_write<'a, L: RawLock + Lockable + ?Sized, Key: Keyable, R>(
 			|| collection.raw_unlock_write(),
 		);
 
-		// this ensures the key is held long enough
-		drop(key);
-
 		// safety: we've locked already, and aren't using the data again
 		collection.raw_unlock_write();
+
+		// the key is given up only after the lock has been released, so that it
+		// cannot be obtained again while this thread still holds the lock
+		drop(key);
 
 		Ok(r)
 	}
@@ -201,11 +203,12 @@ pub fn scoped_read<'a, L: RawLock + Sharable + ?Sized, R>(
 		// safety: we just locked this
 		let r = handle_unwind(|| f(collection.data_ref()), || collection.raw_unlock_read());
 
-		// this ensures the key is held long enough
-		drop(key);
-
 		// safety: we've locked already, and aren't using the data again
 		collection.raw_unlock_read();
+
+		// the key is given up only after the lock has been released, so that it
+		// cannot be obtained again while this thread still holds the lock
+		drop(key);
 
 		r
 	}
@@ -225,11 +228,12 @@ pub fn scoped_try_read<'a, L: RawLock + Sharable + ?Sized, Key: Keyable, R>(
 		// safety: we just locked this
 		let r = handle_unwind(|| f(collection.data_ref()), || collection.raw_unlock_read());
 
-		// this ensures the key is held long enough
-		drop(key);
-
 		// safety: we've locked already, and aren't using the data again
 		collection.raw_unlock_read();
+
+		// the key is given up only after the lock has been released, so that it
+		// cannot be obtained again while this thread still holds the lock
+		drop(key);
 
 		Ok(r)
 	}
